@@ -43,13 +43,18 @@ def r11a(ctx: Context) -> None:
         rule.fail(func_key(logger), where(logger), f"log_scan_failure prints the failure {len(printer_calls)} times")
         return
     early = [n for n in walk_local(logger.node) if isinstance(n, ast.Return) and n.lineno < printer_calls[0].node.lineno]
+    # locals that hold the failure's rule id (assigned from <failure>.rule_id...)
+    id_names = {
+        t.id for n in walk_local(logger.node) if isinstance(n, ast.Assign) and ".rule_id" in norm(n.value)
+        for t in n.targets if isinstance(t, ast.Name)
+    }
     if len(early) < 2:
         rule.fail(func_key(logger) + ": filters", where(logger), f"only {len(early)} suppression exit(s) before the print: disable-next-line or disable-num-lines is no longer honoured")
     for ret in early:
         facts = [(norm(t), p, t) for t, p in guards_of(logger.node, ret)]
         positive = [(text, node) for text, pol, node in facts if pol]
         line_test = [text for text, node in positive if "line_number" in text]
-        id_test = [text for text, node in positive if isinstance(node, ast.Compare) and isinstance(node.ops[0], ast.In) and "rule_id" in norm(node.left)]
+        id_test = [text for text, node in positive if isinstance(node, ast.Compare) and isinstance(node.ops[0], ast.In) and (norm(node.left) in id_names or ".rule_id" in norm(node.left))]
         key = func_key(logger, ret) + f" @{'+'.join(sorted(t for t, _ in positive))[:80]}"
         if not line_test or not id_test:
             rule.fail(key, where(logger, ret), f"a failure is suppressed under {[t for t, _ in positive]}: the suppression must depend on both the failure's line and its rule id")
@@ -62,7 +67,7 @@ def r11a(ctx: Context) -> None:
                 else:
                     rule.fail(func_key(logger, node), where(logger, node), f"range test '{text}' is not inclusive on both ends while the compiler stores the inclusive range (line+1, line+N)")
     # rule id compared in one case on both sides
-    lowered = any(isinstance(n, ast.Assign) and "lower()" in norm(n.value) and any(isinstance(t, ast.Name) and t.id == "rule_id" for t in n.targets) and n.lineno < (early[0].lineno if early else 10**9) for n in walk_local(logger.node))
+    lowered = any(isinstance(n, ast.Assign) and ".rule_id.lower()" in norm(n.value) and any(isinstance(t, ast.Name) and t.id in id_names for t in n.targets) and n.lineno < (early[0].lineno if early else 10**9) for n in walk_local(logger.node))
     if lowered:
         rule.ok(func_key(logger) + ": id case", "rule id lower-cased before the membership test (tables hold lower-case ids)")
     else:
@@ -70,10 +75,18 @@ def r11a(ctx: Context) -> None:
     # compiler side: key line+1 and range (line+1, line+count)
     one = prog.method(PRAGMA_EXT, "__handle_disable_next_line")
     stores = [n for n in walk_local(one.node) if isinstance(n, ast.Assign) and isinstance(n.targets[0], ast.Subscript) and "pragma" in norm(n.targets[0].value)]
+    def plus_one(expr: ast.AST, func: FuncInfo) -> Optional[str]:
+        """'<parameter> + 1' -> parameter name."""
+        if isinstance(expr, ast.BinOp) and isinstance(expr.op, ast.Add):
+            for left, right in ((expr.left, expr.right), (expr.right, expr.left)):
+                if isinstance(left, ast.Name) and left.id in func.params and isinstance(right, ast.Constant) and right.value == 1:
+                    return left.id
+        return None
+
     for store in stores:
         text = norm(store.targets[0].slice)
-        key = func_key(one, store.targets[0])
-        if text in ("actual_line_number + 1", "1 + actual_line_number"):
+        key = f"{one.short}: next-line key"
+        if plus_one(store.targets[0].slice, one):
             rule.ok(key, "suppresses the line after the pragma")
         else:
             rule.fail(key, where(one, store), f"disable-next-line is recorded for line '{text}', not for the line after the pragma")
@@ -83,8 +96,14 @@ def r11a(ctx: Context) -> None:
     tuples = [n for n in walk_local(many.node) if isinstance(n, ast.Tuple) and len(n.elts) == 3 and "line_number" in norm(n)]
     for tup in tuples:
         first, last = norm(tup.elts[0]), norm(tup.elts[1])
-        key = func_key(many, tup)
-        if first == "actual_line_number + 1" and last == "actual_line_number + count_value":
+        key = f"{many.short}: range"
+        line_param = plus_one(tup.elts[0], many)
+        last_ok = (
+            line_param is not None and isinstance(tup.elts[1], ast.BinOp) and isinstance(tup.elts[1].op, ast.Add)
+            and {type(tup.elts[1].left), type(tup.elts[1].right)} == {ast.Name}
+            and line_param in (norm(tup.elts[1].left), norm(tup.elts[1].right))
+        )
+        if line_param and last_ok:
             rule.ok(key, "range (line+1, line+N)")
         else:
             rule.fail(key, where(many, tup), f"disable-num-lines records the range ({first}, {last}); the following N lines are (line+1, line+N)")
